@@ -7,7 +7,7 @@ from typing import Dict, List, Optional, Set
 
 from .. import pipeline, decoders, render, sym
 from ..model import AnalysisError, Repo
-from ..report import Run
+from ..report import Run, take_over
 from ..sym import T, const, param
 
 EXPLANATION = (
@@ -126,6 +126,9 @@ def check_lexer_options(repo: Repo, run: Run) -> None:
 
 
 def check(repo: Repo, run: Run) -> None:
+    take_over(run, "c02", "C02", repo, lambda o: o["rule"] == "R3" and "name is a NUL-terminated string" in o["construct"], "R0",
+              "process names of the thread map", "the process column prints the name the thread map gives: a name field read past "
+              "its terminator prints left-over bytes of an earlier name", 1)
     interp = sym.Interp(repo)
     pk = repo.cls("pykdebugparser", "PyKdebugParser")
 
